@@ -84,6 +84,7 @@ func applyUserCode(r *gen.Rand, files []string, wild bool) (*userEdit, error) {
 	helperN := 0
 	recvDeclared := false
 	rootHelper := map[string]bool{}
+	var caseTwins []string // helper methods on resolver structs whose names differ from a resolver's only in case
 	for _, path := range files {
 		b, err := os.ReadFile(path)
 		if err != nil {
@@ -114,6 +115,10 @@ func applyUserCode(r *gen.Rand, files []string, wild bool) (*userEdit, error) {
 				continue
 			}
 			key := id.Name + "." + fd.Name.Name
+			if r.Chance(1, 5) {
+				lc := strings.ToLower(fd.Name.Name[:1]) + fd.Name.Name[1:]
+				caseTwins = append(caseTwins, fmt.Sprintf("// %s is what %s delegates to in some projects.\nfunc (r *%s) %s() string {\n\treturn \"the unexported helper %s.%s, not the resolver\"\n}", lc, fd.Name.Name, id.Name, lc, id.Name, lc))
+			}
 			if r.Chance(1, 6) {
 				continue // left as generated
 			}
@@ -202,6 +207,15 @@ func applyUserCode(r *gen.Rand, files []string, wild bool) (*userEdit, error) {
 		if err := os.WriteFile(path, out, 0o644); err != nil {
 			return nil, err
 		}
+	}
+	// a hand-written file that sorts before every resolver file
+	if len(caseTwins) > 0 && len(files) > 0 {
+		dir := files[0][:strings.LastIndex(files[0], "/")]
+		src := "package graph\n\n" + strings.Join(caseTwins, "\n\n") + "\n"
+		if err := os.WriteFile(dir+"/0helpers.go", []byte(src), 0o644); err != nil {
+			return nil, err
+		}
+		ue.Helpers[dir+"/0helpers.go"] = caseTwins
 	}
 	return ue, nil
 }
